@@ -535,10 +535,11 @@ func (x *Run) exec(fr *Frame, st *State, instr ssa.Instruction, outs *[]Outcome)
 		st.events = append(st.events, Event{Name: "send", Args: []Val{ch, x.val(fr, st, ins.X)}})
 	case *ssa.Go:
 		// spawned body is not executed on this path; arguments are evaluated
+		var gargs []Val
 		for _, a := range ins.Call.Args {
-			x.val(fr, st, a)
+			gargs = append(gargs, x.val(fr, st, a))
 		}
-		st.events = append(st.events, Event{Name: "go:" + calleeName(&ins.Call)})
+		st.events = append(st.events, Event{Name: "go:" + calleeName(&ins.Call), Args: gargs})
 	case *ssa.Defer:
 		d := Deferred{Call: &ins.Call, Site: ins}
 		if !ins.Call.IsInvoke() {
